@@ -402,6 +402,11 @@ def run(ctx):
         if not after:
             raise AnchorMissing("run_agent: no handler execution after the event loop (on_stop)")
 
+    with ctx.rule("C14.R15", "T2", "the sender lent out of Uplinks.writer always comes back: as a WriteTask or into the slot (shared with C01.R7)", floor=4) as r:
+        # a sender that is dropped leaves the remote attached and linked while nothing is ever written to it again (F61)
+        uplinks.writer_token(r, ctx)
+
+
 
 def _assign_operand(body, block, suffix):
     for i, j, p, rv, line in body.assigns():
